@@ -174,6 +174,20 @@ func c33Gen(w *bufio.Writer, seed int64, tier string) {
 		if r.chance(3) { // beyond the Duration range: Sub saturates
 			t.Add(epEff, new(big.Int).Lsh(big.NewInt(int64(r.pick(-1, 1))), uint(r.pick(63, 64, 65))))
 		}
+		if r.chance(4) { // at the edges of the Duration range (+-2^63 ns from the epoch), +- a few cycles
+			edge := new(big.Int).Lsh(big.NewInt(1), 63)
+			if r.chance(50) {
+				edge.Neg(edge)
+			}
+			edge.Add(edge, big.NewInt(int64(r.pick(-2, -1, 0, 1, 2))*(C%(1<<40))+int64(r.pick(-1, 0, 1))))
+			t.Add(epEff, edge)
+		}
+		if r.chance(4) && C < 1<<40 { // very many cycles away from the epoch, on a window boundary
+			kk := int64(r.u64()%(uint64(1)<<62)/uint64(C)) * int64(r.pick(-1, 1))
+			far := new(big.Int).Mul(big.NewInt(kk), big.NewInt(C))
+			far.Add(far, epEff)
+			t.Add(far, big.NewInt(d))
+		}
 		fmt.Fprintf(w, "w %s %d %d %d %s %s\n", hexTok(id[:]), C, W, tol, ep.String(), t.String())
 	}
 }
